@@ -32,3 +32,29 @@ func debugLocks(r *core.Run) {
 		}
 	}
 }
+
+func init() { Registry["X-bounds"] = debugBounds }
+
+func debugBounds(r *core.Run) {
+	p := load(r, core.LoadOpts{})
+	run := p.Func("client/network.(*OneConnection).Run")
+	ba := an.NewBoundsAnalysis(p, an.BoundsConfig{TaintedFields: map[string]bool{"client/network.BCmsg.pl": true}})
+	ba.Root(run, nil)
+	cnt := map[string][2]int{}
+	for _, ob := range ba.Obs {
+		c := cnt[core.FuncName(ob.Fn)]
+		c[0]++
+		if !ob.Proven {
+			c[1]++
+		}
+		cnt[core.FuncName(ob.Fn)] = c
+	}
+	var ks []string
+	for k := range cnt {
+		ks = append(ks, k)
+	}
+	sort.Strings(ks)
+	for _, k := range ks {
+		fmt.Printf("%-70s %d %d\n", k, cnt[k][0], cnt[k][1])
+	}
+}
